@@ -330,4 +330,24 @@ theorem simF : (ts : List ST) → (σ : RS) → (p : Nat) → SR σ p → (names
     · rw [hdoc2, hdoc1]; simp only [sizeF]; omega
 end
 
+/-- the reader state after `<scxml>` -/
+def σscxml : RS :=
+  match run [.start t_scxml []] {} with
+  | .ok σ => σ
+  | .error _ => {}
+
+theorem σscxml_facts_aux : run [.start t_scxml []] {} = .ok σscxml ∧ σscxml.raw = none ∧
+    σscxml.cur.tag = .scxml ∧ σscxml.cur.state = 1 ∧ σscxml.nextId = 1 ∧ σscxml.nextDoc = 2 ∧
+    view σscxml.fsm = [⟨1, [95, 95, 105, 100, 49], 0, 1, []⟩] := by
+  have h : (match run [.start t_scxml []] {} with
+    | .ok _ => true
+    | .error _ => false) = true := by decide +kernel
+  refine ⟨?_, by decide +kernel, by decide +kernel, by decide +kernel, by decide +kernel, by decide +kernel,
+    by decide +kernel⟩
+  unfold σscxml
+  cases hr : run [.start t_scxml []] {} with
+  | ok σ => rfl
+  | error e => rw [hr] at h; simp at h
+
+
 end Rfsm.Reader
